@@ -67,9 +67,18 @@ impl core::ops::SubAssign for Tag {
 /// Plumbing colour types for the blanket conversion impls: conversion, clamp and bounds test are arbitrary,
 /// mutually distinguishable functions on u32.
 #[derive(Clone, Copy, PartialEq, Eq, Debug)]
+#[repr(transparent)]
 pub struct PSrc(pub u32);
 #[derive(Clone, Copy, PartialEq, Eq, Debug)]
+#[repr(transparent)]
 pub struct PDst(pub u32);
+// both are transparent wrappers of one u32: the array form the in-place collection conversions need
+unsafe impl palette::cast::ArrayCast for PSrc {
+    type Array = [u32; 1];
+}
+unsafe impl palette::cast::ArrayCast for PDst {
+    type Array = [u32; 1];
+}
 
 impl palette::convert::FromColorUnclamped<PSrc> for PDst {
     fn from_color_unclamped(s: PSrc) -> PDst { PDst(s.0.rotate_left(7) ^ 0x9E37_79B1) }
